@@ -438,7 +438,15 @@ def sym_inv(m):
     raise NotEncodable('inv n=%d' % n)
 
 
+def _cmpfn(op, real):
+    import operator
+    f = getattr(operator, op)
+    return _binary(lambda a, b: f(_S(a), b) if isinstance(a, SymReal) or isinstance(b, SymReal) else f(a, b), real, op)
+
+
 OVERRIDES = {
+    'greater': _cmpfn('gt', _np.greater), 'greater_equal': _cmpfn('ge', _np.greater_equal),
+    'less': _cmpfn('lt', _np.less), 'less_equal': _cmpfn('le', _np.less_equal),
     'zeros': sym_zeros, 'ones': sym_ones, 'empty': sym_empty, 'full': sym_full,
     'zeros_like': _like(0.0), 'ones_like': _like(1.0), 'empty_like': _like(0.0),
     'sqrt': sym_sqrt, 'exp': sym_exp, 'log': sym_log, 'log10': sym_log10,
